@@ -117,10 +117,22 @@ static void run_inject(uint64_t idx, pv_rng* rng) {
     unsigned last = (unsigned)(idx % 8), prev = (unsigned)((idx / 8) % 8);
     h[len - 1] = (tbl){ len >= 2 ? 1 - h[len - 2].tag : (int)(idx & 1), last & 1, (last >> 1) & 1, (last >> 2) & 1 };
     if (len >= 2) { h[len - 2].time = prev & 1; h[len - 2].alloc = (prev >> 1) & 1; h[len - 2].free_ = (prev >> 2) & 1; h[len - 1].tag = 1 - h[len - 2].tag; }
-    for (int i = 0; i < len; ++i) do_inject(&h[i], rng);
+    /* a seed created under the previous table stays alive across the last injection (only when both tables route
+     * allocation through the monitors, so that the block is released by a function that knows it) */
+    polyseed_data* old = NULL;
+    for (int i = 0; i < len; ++i) {
+        if (i == len - 1 && len >= 2 && h[len - 2].alloc && h[len - 2].free_ && h[len - 1].alloc && h[len - 1].free_) { pv_w->time_value = PV_EPOCH + 5; pv_wrap_time_scripted = 1; pv_wrap_time_value = (time_t)(PV_EPOCH + 5); if (pv_api_create(0, &old) != POLYSEED_OK) old = NULL; pv_wrap_time_scripted = 0; }
+        do_inject(&h[i], rng);
+    }
     const tbl* t = &h[len - 1];
     char hist[64]; snprintf(hist, sizeof hist, "len%d last(time=%d,alloc=%d,free=%d,set=%c)", len, t->time, t->alloc, t->free_, 'A' + t->tag);
     bool ok = true;
+    if (old) {      /* "a later injection replaces every entry": the old seed is wiped and released through the NEW table */
+        wraps_begin(); pv_api_free(old); PV_COUNT("evaluations", 1);
+        ok &= routed(t, "polyseed_free(seed-from-before-the-injection)", false, true, false);
+        if (pv_ev_count(PV_EV_MEMZERO) < 1) { ok = false; pv_violation("C18/injected-entry-not-used/memzero", "free of an older seed did not wipe through the current memzero"); }
+        PV_COUNT("inject.old_seed_freed_after_reinjection", 1);
+    }
     pv_mlang* L; do { L = &pv_langs[pv_randn(rng, (uint32_t)pv_nlangs)]; } while (!L->lib);
     pv_mlang* KO = pv_lang_by_name("Korean");
     unsigned coin = pv_gen_coin(rng);
